@@ -119,6 +119,37 @@ def repo_head():
     return out.strip() + ("+dirty" if st.strip() else "")
 
 
+def source_fingerprints(files):
+    out = {}
+    for rel in files:
+        try:
+            with open(os.path.join(REPO, rel), "rb") as f:
+                out[rel] = hashlib.sha256(f.read()).hexdigest()[:16]
+        except OSError:
+            out[rel] = "missing"
+    return out
+
+
+def sources_changed(pid, files):
+    """Compare the anchored tlx sources with the fingerprints recorded when the
+    model was last reviewed against them (sentinels/<pid>.json, written only by
+    `check.py <pid> --bless`).  A difference is NOT an alarm: it makes the check
+    validate the model against the code at the thorough depth."""
+    p = os.path.join(VERIF, "sentinels", pid + ".json")
+    now = source_fingerprints(files)
+    try:
+        old = json.load(open(p))
+    except (OSError, ValueError):
+        return sorted(now)
+    return sorted(k for k in now if old.get(k) != now[k])
+
+
+def bless_sources(pid, files):
+    os.makedirs(os.path.join(VERIF, "sentinels"), exist_ok=True)
+    with open(os.path.join(VERIF, "sentinels", pid + ".json"), "w") as f:
+        json.dump(source_fingerprints(files), f, indent=1, sort_keys=True)
+
+
 # --------------------------------------------------------------------------- Lean
 
 def lean_build(ctx, targets):
